@@ -673,3 +673,68 @@ def chain_engine(prop, tier, replay, t0):
 
 
 ENGINES['C17'] = chain_engine
+
+
+# ---------------------------------------------------------------------------------------------
+# ZogHeap engine: C19
+# ---------------------------------------------------------------------------------------------
+def heap_engine(prop, tier, replay, t0):
+    vlib.build_harness()
+    d = vlib.scratch('heap.')
+    base = {'Sites': 'SitesDef', 'TraceFile': '"trace.ndjson"', 'VerdictFile': '"verdicts.ndjson"'}
+    cfg = 'CONSTANTS\n  Sites <- SitesDef\n  CopyAt <- CopyAll\n  TraceFile = "trace.ndjson"\n  VerdictFile = "verdicts.ndjson"\nINIT Init\nNEXT Next\nINVARIANTS SchemaAndInputImmutable NoSharedMemory SecondRunSame\nCHECK_DEADLOCK FALSE\n'
+    mc = vlib.run_tlc('MC_Heap', cfg, workers=4, timeout=600)
+    vlib.tlc_ok(mc, 'ZogHeap')
+    # the design with one aliasing site must be rejected by the same invariants (non-vacuity of the model)
+    mut = vlib.run_tlc('MC_Heap', cfg.replace('CopyAt <- CopyAll', 'CopyAt <- AliasValidate'), workers=4, timeout=600)
+    if not mut['violated']:
+        raise Inconclusive('ZogHeap: the aliasing variant is not rejected (vacuous model)')
+    trace = os.path.join(d, 'heap.ndjson')
+    st = vlib.harness(['heap', '-out', trace])
+    tcfg = 'CONSTANTS\n  Sites <- SitesDef\n  CopyAt <- CopyAll\n  TraceFile = "trace.ndjson"\n  VerdictFile = "verdicts.ndjson"\nINIT TraceInit\nNEXT TraceNext\nCHECK_DEADLOCK FALSE\n'
+    res = vlib.run_tlc('MC_Heap', tcfg, workers=1, timeout=600, files={'trace.ndjson': trace})
+    vf = os.path.join(res['dir'], 'verdicts.ndjson')
+    if not os.path.exists(vf):
+        raise Inconclusive('ZogHeap trace validation produced no verdicts\n' + res['out'][-3000:])
+    verdicts = [json.loads(l) for l in open(vf) if l.strip()]
+    if not verdicts or verdicts[-1]['prop'] != 'END':
+        raise Inconclusive('ZogHeap validation stopped early')
+    viol = verdicts[:-1]
+    # input immutability on random nested cases (Trace_Exec verdict input-modified)
+    tr2 = os.path.join(d, 'exec.ndjson')
+    st2 = vlib.harness(['exec', '-plan', 'random:%d,success:%d' % ((6000, 3000) if tier == 'thorough' else (600, 300)), '-seed', str(vlib.seed()), '-out', tr2])
+    v2, tv2 = vlib.validate_traces('Trace_Exec', tr2, vlib.exec_consts(soft='any'))
+    mine2 = [v for v in v2 if v['prop'] == 'C19']
+    rc = 0
+    os.makedirs(vlib.REPLAY, exist_ok=True)
+    lines = open(trace).read().splitlines()
+    for v in viol[:5]:
+        path = '%s/C19-%s.ndjson' % (vlib.REPLAY, v['id'])
+        open(path, 'w').write(lines[v['line'] - 1] + '\n')
+        print('VIOLATION property=C19 replay=%s' % path)
+        log('  verdict: %s: %s' % (v['kind'], json.dumps(v['detail'])[:500]))
+        rc = 1
+    seen = set()
+    for v in mine2:
+        if v['id'] in seen or len(seen) >= 3:
+            continue
+        seen.add(v['id'])
+        path = '%s/C19-%s.ndjson' % (vlib.REPLAY, v['id'].replace('/', '_'))
+        with open(path, 'w') as f:
+            f.writelines(vlib.extract_trace(tr2, v['id']))
+        print('VIOLATION property=C19 replay=%s' % path)
+        rc = 1
+    cov = dict(states=mc['distinct'] + res['distinct'], transitions=mc['generated'] + res['generated'], traces_validated_against_impl=st['evaluations'] + st2['traces'],
+               evaluations=st['evaluations'] + st2['cases'], distinct_nontrivial=st['distinct'] + st2['distinct_nontrivial'],
+               rule='episodes: for each copy site (slice Default at the root / as a field / behind a pointer, primitive Default, Catch value, OneOf list) and mode, an execution with a destination-mutating PostTransform, '
+                    'pointer-identity and deep-equality checks of the schema-owned value, and a second identical execution; Parse inputs of every container kind with mutating transforms; plus input deep-equality on seeded '
+                    'random nested Parse cases; distinct = episodes + distinct cases',
+               samples=st['samples'] + st2['samples'][:2], mc_config='ZogHeap: sites x copy/alias, invariants SchemaAndInputImmutable NoSharedMemory SecondRunSame; the aliasing variant is rejected (%s)' % mut['violated'],
+               exhaustive=False)
+    vlib.write_evidence(prop, tier, 'model_checking', cov,
+                        ['the model is small: it states which memory an execution may write; the facts about the real code (pointer identity, deep equality before/after, second run) are observed by the harness and only re-evaluated by TLC',
+                         'values captured by user closures are the user\'s'], time.time() - t0, len(viol) + len(mine2))
+    return rc
+
+
+ENGINES['C19'] = heap_engine
